@@ -17,7 +17,7 @@ pub fn data(rng: &mut Rng, maxlen: usize) -> Vec<u8> {
         match rng.below(8) {
             0 => out.extend_from_slice(b"$NetBSD: patch-aa,v 1.1 2024/01/01 00:00:00 joe Exp $"),
             1 => out.extend_from_slice(b"x $NetBSD$ y"),
-            2 => out.extend_from_slice(b"$NetBS D $Net"),
+            2 => out.extend_from_slice(*rng.pick(&[&b"$NetBS D $Net"[..], &b"NetBSD needs <sys/param.h> here"[..], &b"x NetBSD$ y"[..], &b"$ NetBSD"[..], &b"NetBSD"[..], &b"$$NetBSD"[..], &b"$netbsd$"[..]])),
             3 => {}
             4 => out.extend_from_slice("--- a/fil\u{e9}.c\t2024".as_bytes()),
             5 => out.extend_from_slice(&[0xff, 0x00, b'$', b'N']),
